@@ -300,9 +300,19 @@ def check(ctx):
     bsg = method(repo, mc, "_build_simulation_graph")
     rg = evaluate(repo, bsg)
     appends = [(t, cond) for t, _, cond in rg.calls if t[1][0] == "a" and t[1][2] == "append"]
+    if len(appends) == 1 and appends[0][0][2] and appends[0][0][2][0][0] in ("phi", "ifexp"):
+        # one append of a conditionally chosen edge: an append per alternative
+        def _arms(t_, cond_):
+            if t_[0] in ("phi", "ifexp") and len(t_) == 4 and t_[1][0] != "path":
+                return (_arms(t_[2], cond_ + ((t_[1], True),))
+                        + _arms(t_[3], cond_ + ((t_[1], False),)))
+            return [(t_, cond_)]
+        t0, cond0 = appends[0]
+        appends = [((t0[0], t0[1], (leaf,) + t0[2][1:], t0[3]), tuple(cond0) + extra)
+                   for leaf, extra in _arms(t0[2][0], ())]
     ok_g = False
     detail = f"{len(appends)} append sites"
-    if len(appends) == 2:
+    if len(appends) >= 2:
         rev = [(t, cond) for t, cond in appends]
         # the reversed edge (node, input) must be under isinstance(node, Dist) and input is at
         def edge(t):
@@ -329,9 +339,10 @@ def check(ctx):
                     return False
             when = {}
             for e, pols in info:
-                when[e] = {(a_, b_) for a_, b_ in _it2.product((False, True), repeat=2)
-                           if all(_cond_value(x, _Asg({A_: a_, B_: b_})) == bool(p_)
-                                  for x, p_ in pols)}
+                when.setdefault(e, set()).update(
+                    (a_, b_) for a_, b_ in _it2.product((False, True), repeat=2)
+                    if all(_cond_value(x, _Asg({A_: a_, B_: b_})) == bool(p_)
+                           for x, p_ in pols))
             rev_e = [e for e, w_ in when.items() if w_ == {(True, True)}]
             fwd_e = [e for e, w_ in when.items()
                      if w_ == {(False, False), (False, True), (True, False)}]
